@@ -41,6 +41,11 @@ CHECKS = {
    note='Grouping is judged by the documented policy definitions; text of added headers and order of written envelopes are not judged; collapse of an original duplicate would be tolerated (never observed).',
    technique='exhaustive enumeration of inputs x policy chains on the real Queue.enqueue against a reference model',
    design='5/C16'),
+ 'C18': dict(level='exploration', engine='E2-seq',
+   text='The three PROXY-protocol mix-ins are driven through handle() on a stub edge over a scripted socket whose every recv_into size is a choice point.  204 v1 and 196 v2 well-formed base headers at field boundaries x 5 payloads, 145 near-boundary v1 lines, every single-byte corruption (position x 8 values) and every truncation of 27 bases, all 256 values of v2 bytes 12..15, declared lengths 0..320 (quick) / 0..65535 (thorough), all 1555 garbage strings of length <= 4 over 6 symbols x 5 tails, double corruptions of the signature region (thorough); ALL short-read segmentations for inputs whose reads are <= 48 bytes (merged on consumed bytes + live parser frame state), bounded short reads (d=1..3) + byte-at-a-time otherwise.  Oracle: strict three-valued reference parser, exact consumption, no stray exception, one observation per input.',
+   note='Merge assumes parser state lives only in frame locals (the module has no other state); for reads > 16 bytes in bounded mode only sizes {1..4, n/2, n-4..n-1} are tried; spellings Python accepts but the spec forbids (leading zeros, +, _) are don\'t-care.',
+   technique='exhaustive input enumeration (boundaries, corruptions, truncations, garbage) x exhaustive short-read exploration on the real parser against a reference parser',
+   design='5/C18'),
  'C20': dict(level='exploration', engine='pure-enumeration',
    text='Exhaustive within bounds: 1690 header blocks (1..3 fields, 5 value kinds incl. folded, 8-bit, 78-byte lines) x CRLF/LF x every body over {NUL,CR,LF,.,a,0xFF} up to length 2-5, plus "Name:value" forms; every byte string over {a,:,SP,CR,LF,0xFF} up to 6/7 bytes and sequences of long tokens for the never-raises claim; UTF-8 texts over {e-acute,a,CRLF} x 4 header sets x {base64, quoted-printable, none} for 7-bit conversion.  Oracle: independent header reader, byte-exact body, copy/pickle round trips, parse(flatten()) fixed point, stdlib parser as independent decoder.',
    note='7-bit "same text" is judged modulo line-end convention; control characters that split header lines are outside the quantifier.',
